@@ -41,6 +41,62 @@ class C17(SamplerProp):
                   'runs with the same seed return equal graphs.')
     TECHNIQUE = 'symbolic execution of two-run sampler histories with RNG stream R(seed,k,n), target and masses symbolic; arithmetic + equality-of-runs oracle; z3'
 
+    _mode = {}
+    _run_index = [0]
+
+    def setup_shadow(self, SH):
+        SamplerProp.setup_shadow(self, SH)
+        self._mode = {}
+        self._run_index = [0]
+
+        def hook(items):
+            # model of hash-seed dependent set iteration (as in C12): each of the two construct-and-sample runs stands for
+            # one interpreter process with its own solver-chosen order (insertion / reversed / rotated by one)
+            if len(items) <= 1 or all(isinstance(i, int) and not isinstance(i, bool) for i in items):
+                return items
+            key = self._run_index[0]
+            if key not in self._mode:
+                self._mode[key] = int(symx.sym_int('set_order_mode_run%d' % key, 0, 2))
+            m = self._mode[key]
+            if m == 1:
+                return list(reversed(items))
+            if m == 2:
+                return items[1:] + items[:1]
+            return items
+        symx.RT.set_order_hook = hook
+
+    def skip_validation(self, shape, inp):
+        # a path on which the set-order model was exercised describes two interpreter processes at once
+        return bool(self._mode)
+
+    def replay_extra(self, shape, cinp, clause=None):
+        """concrete replay only: construct-and-sample with the same seed in separate interpreter processes under different
+        hash seeds, with the real random module"""
+        if clause != 'same_seed_same_molecule':
+            return []
+        import subprocess
+        import sys as _sys
+        from .. import loader
+        cfg = CONFIGS[shape['cfg']]
+        kw = dict(cfg['kw'])
+        if cinp.get('masses'):
+            kw['fragment_masses'] = {k: float(v) for k, v in cinp['masses'].items()}
+        prog = ("import json,sys\nsys.path.insert(0, %r)\nimport os\nos.environ.setdefault('PBR_VERSION','0.0.0')\n"
+                "from cgsmiles.sample import MoleculeSampler\n"
+                "out = []\n"
+                "for seed in (7, 11, 2024):\n"
+                "    s = MoleculeSampler.from_fragment_string(%r, all_atom=%r, seed=seed, **%r)\n"
+                "    mol = s.sample(%r)\n"
+                "    out.append([sorted((n, sorted((k, repr(v)) for k, v in d.items() if k != 'graph')) for n, d in mol.nodes(data=True)),"
+                " sorted((min(a,b), max(a,b), repr(sorted(d.items()))) for a, b, d in mol.edges(data=True))])\n"
+                "print(json.dumps(out))\n") % (loader.REPO, cfg['frags'], cfg['aa'], kw, max(float(cinp['target']), 150.0))
+        dumps = set()
+        for hs in range(8):
+            env = dict(__import__('os').environ, PYTHONHASHSEED=str(hs), PBR_VERSION='0.0.0')
+            p = subprocess.run([_sys.executable, '-c', prog], stdout=subprocess.PIPE, stderr=subprocess.DEVNULL, text=True, env=env, timeout=300)
+            dumps.add(p.stdout.strip() if p.returncode == 0 else 'exit %d' % p.returncode)
+        return [('identical_molecules_across_processes_with_hash_seeds_0_to_7', len(dumps) == 1)]
+
     def _decoy(self, M, shape):
         """an earlier sampler in the same process whose fragments carry the same names but other bodies"""
         cfg = CONFIGS[shape['cfg']]
@@ -53,8 +109,12 @@ class C17(SamplerProp):
     def execute(self, M, shape, inp):
         self._decoy(M, shape)
         if getattr(M, 'is_shadow', False):
+            self._mode.clear()
+            self._run_index[0] = 0
             r1 = core.guard(self._run_once, M, shape, inp, 7, True)
+            self._run_index[0] = 1
             r2 = core.guard(self._run_once, M, shape, inp, 7, True)
+            self._run_index[0] = 0
             inp['draws'] = dict(STREAM.draws)
             return [r1, r2]
         return self._real_run(M, shape, inp, seeds=(7, 7))
